@@ -708,14 +708,17 @@ class C16Monitor(Monitor):
         self.maint_cost = 0
         self.wo_seen = 0
         self.initial = {}
+        self.keep = []
         self.built_assets = list(f.system._assets)      # everything the builder constructed before the first run
 
     def check_asset(self, f, a, now, label):
         hist = a.value_history
         k = id(a)
-        if k not in self.initial:
+        first_sight = k not in self.initial
+        if first_sight:
             self.initial[k] = a._initial_value if hasattr(a, '_initial_value') else 0
             self.hist_seen[k] = [0, self.initial[k]]
+            self.keep.append(a)
         seen, running = self.hist_seen[k]
         if len(hist) < seen:
             f.fail('C16.a', f'value history of {label} shrank', 'history_shrank')
@@ -723,8 +726,10 @@ class C16Monitor(Monitor):
             lab, t, delta, total = ent
             if delta == 0:
                 f.fail('C16.b', f'{label}: zero change recorded in value history: {ent}', 'zero_delta')
-            if t != now:
+            if t != now and not first_sight:     # (an asset first looked at now may carry older entries)
                 f.fail('C16.b', f'{label}: value history entry {ent} stamped {t}, now is {now}', 'stamp')
+            if t > now:
+                f.fail('C16.b', f'{label}: value history entry {ent} is stamped in the future (now {now})', 'stamp')
             running += delta
             if total != running:
                 f.fail('C16.b', f'{label}: value history entry {ent} has running total {total}, expected {running}',
